@@ -34,3 +34,5 @@ def run(ctx, rep):
     from ..rules import more6
     import re as _re
     more6.rule_precision_family(mod, rep, floor=100, sel=lambda f: _re.match(r"p[sdcz]gstrf", f.name) is not None)
+    from ..rules import more6 as _m6
+    _m6.rule_pivot_column(mod, rep)
